@@ -597,6 +597,90 @@ func TestVerifC14(t *testing.T) { //nolint:cyclop,maintidx
 			r.distinct(fmt.Sprintf("tcpconn-hostile/%d/%s/valid%d", mode, kind, len(want)/4))
 		}
 
+		// (G) the write side of tcpPacketConn, with and without the write buffer of the TCP mux (WriteBufferSize): every
+		// packet up to the receive MTU that WriteTo accepted appears on the wire as one RFC 4571 frame, in order
+		nG := e.n(1500, 60000)
+		for i := 0; i < nG; i++ {
+			rng := e.rng(i, "tcppacketconn-write")
+			wb := []int{0, 1 << 20, 1 << 22}[rng.IntN(3)]
+			cc := &vfChunkConn{remote: &net.TCPAddr{IP: net.IPv4(10, 9, 1, 5), Port: 1000 + rng.IntN(60000)}, blockEOF: true, eofCh: make(chan struct{})}
+			tp := newTCPPacketConn(tcpPacketParams{ReadBuffer: 1, WriteBuffer: wb, LocalAddr: &net.TCPAddr{IP: net.IPv4(10, 0, 0, 1), Port: 7000}, Logger: vfQuietLogger().NewLogger("ice")})
+			if err := tp.AddConn(cc, nil); err != nil {
+				r.violation("harness:addconn", err.Error(), nil)
+
+				continue
+			}
+			pkts := vfC14Packets(rng, 8192)
+			if len(pkts) > 12 {
+				pkts = pkts[:12]
+			}
+			// the boundary lengths are always present
+			for _, l := range []int{8192, 8191, 8190, 1}[:1+rng.IntN(4)] {
+				pkts = append(pkts, bytes.Repeat([]byte{byte(l)}, l))
+			}
+			rng.Shuffle(len(pkts), func(a, b int) { pkts[a], pkts[b] = pkts[b], pkts[a] })
+			var accepted [][]byte
+			lens := []int{}
+			for _, p := range pkts {
+				if len(p) == 0 {
+					continue // an empty write is not representable in the packet buffer
+				}
+				n, err := tp.WriteTo(p, cc.RemoteAddr())
+				if err == nil && n == len(p) {
+					accepted = append(accepted, p)
+					lens = append(lens, len(p))
+				}
+			}
+			// a final sentinel packet: the buffered writer is one goroutine working in order, so once the sentinel's frame
+			// is on the wire everything accepted before it has been dealt with
+			sentinel := []byte(fmt.Sprintf("END-%d", i))
+			if n, err := tp.WriteTo(sentinel, cc.RemoteAddr()); err != nil || n != len(sentinel) {
+				r.inconclusive(1)
+				_ = tp.Close()
+				_ = cc.Close()
+
+				continue
+			}
+			accepted = append(accepted, sentinel)
+			sentFrame, _ := vfC14Frame([][]byte{sentinel})
+			want, _ := vfC14Frame(accepted)
+			var wire []byte
+			for dl := time.Now().Add(10 * time.Second); time.Now().Before(dl); time.Sleep(20 * time.Microsecond) {
+				cc.mu.Lock()
+				wire = append([]byte{}, cc.written.Bytes()...)
+				cc.mu.Unlock()
+				if bytes.HasSuffix(wire, sentFrame) {
+					break
+				}
+			}
+			r.eval(1)
+			if !bytes.HasSuffix(wire, sentFrame) {
+				r.inconclusive(1) // the writer never reached the sentinel: no verdict on order or loss
+				_ = tp.Close()
+				_ = cc.Close()
+
+				continue
+			}
+			if !bytes.Equal(wire, want) {
+				// which accepted packet is missing or altered
+				detail := fmt.Sprintf("%d bytes on the wire, %d expected", len(wire), len(want))
+				pos := 0
+				for k, p := range accepted {
+					fr, _ := vfC14Frame([][]byte{p})
+					if pos+len(fr) > len(wire) || !bytes.Equal(wire[pos:pos+len(fr)], fr) {
+						detail = fmt.Sprintf("accepted packet %d (len %d) is not on the wire at its place (%d bytes on the wire, %d expected)", k, len(p), len(wire), len(want))
+
+						break
+					}
+					pos += len(fr)
+				}
+				r.violation("tcpconn-write-lost-or-altered", fmt.Sprintf("write buffer %d: %s", wb, detail), map[string]any{"idx": i, "write_buffer": wb, "accepted_lens": lens})
+			}
+			_ = tp.Close()
+			_ = cc.Close()
+			r.distinct(fmt.Sprintf("tcpconn-write/wb%d/n%d/max%d", wb, len(accepted)/4, vfC14MaxBucket(lens)))
+		}
+
 		// (F) concurrent senders on one TCP connection: frames must not interleave on the wire
 		nF := e.n(400, 20000)
 		for i := 0; i < nF; i++ {
